@@ -181,6 +181,14 @@ def check_views(s, soup):
                 out.append(('parent', 'parent of %r reached by iterating %r in %r' % (str(c), str(n), s)))
                 break
         desc = list(n.descendants)
+        for d in desc:                                 # walking parents from any descendant ends at the node asked
+            p, k = d, 0
+            while isinstance(p, TexNode) and p is not n and k < 10000:
+                p, k = p.parent, k + 1
+            if isinstance(d, TexNode) and p is not n:
+                out.append(('parent', 'the parent chain of %r, reached through the descendants of %r in %r, ends at %r'
+                            % (str(d), str(n), s, p)))
+                break
         closure = []
 
         def close(m):
